@@ -36,6 +36,18 @@ var specs = map[string]spec{
 		},
 		Assumptions: commonAssumptions, Plain: true, QuickStride: 1, ThoroughStride: 1, QuickDeadline: 420, ThoroughDeadline: 3000,
 	},
+	"C17": {
+		LevelText: "bounded exhaustive enumeration of expression trees (all operators in every nesting of depth <=3 that needs parentheses, literals needing escapes, data references, calls, list/map literals, print commands with directives); each is parsed by the real parser, printed by the real String(), parsed again and the two trees compared structurally; injectivity of the printed text is checked over the whole enumerated set",
+		LevelNote: "the structural comparison ignores positions and the original spelling of string literals; trusted base: the reflective tree digest in harness/c17.go",
+		Technique: "bounded exhaustive exploration of parse -> print -> parse round trips on the real parser and printer",
+		Level:     "model_checking",
+		Rule:      "a state is a distinct source text; a transition is one parse/print/parse round trip; non-trivial = the source parsed (so a printed form exists and was re-parsed)",
+		Bounds: map[string]string{
+			"quick":    "C01 strata S1,S2,S4,S5 (minimal and full parentheses), 70 shapes x 9 directive chains as print commands, 8^3 operator triples x 8 depth-3 shapes, 70 special literals",
+			"thorough": "14^3 operator triples, three-operator nestings of S2",
+		},
+		Assumptions: commonAssumptions, Plain: true, QuickStride: 1, ThoroughStride: 1, QuickDeadline: 420, ThoroughDeadline: 3000,
+	},
 	"C05": {
 		LevelText: "bounded exhaustive exploration of the real parser: every input of the stated small scopes is parsed under a controlled scheduler with a deterministic linear fuel bound (no wall clock), and small inputs under every parser/scanner interleaving up to 2 preemptions; termination, no panic, no deadlock and tree-xor-error are checked on every execution and every case is replayed on the uninstrumented build",
 		LevelNote: "assumes the bounded scopes are representative (small-scope hypothesis) and that the overlay instrumentation preserves behaviour (cross-checked case by case against the plain build)",
